@@ -1,2 +1,31 @@
-(* C06 placeholder: statements follow with Model/StackProto.v *)
-From RT Require Import Model.StackTrace.
+(* C06 -- a crash at any point leaves the previous or the next committed state.
+   Statements only.  A crash is a transition of the protocol model ([Crash h] in
+   a schedule kills handle h before its next file-system operation, wherever it
+   is: inside Add, a compaction with or without expiry, a reload, Close; any
+   number of other handles continue).  [c06_ok] = c04_ok && c05_ok && c10_ok:
+   after every operation of every schedule the list names complete tables in
+   increasing ranges holding exactly the committed transactions in commit order
+   (so the state is the one before or the one after each commit, never a
+   mixture), nothing listed is ever removed, Add's success means committed, and
+   the survivors' reads keep working. *)
+From Coq Require Import List NArith Arith Bool.
+From RT Require Import Model.StackTrace Model.StackProto Proofs.StackInvProofs Proofs.SnapshotProofs.
+Import ListNotations.
+
+Theorem C06_crash_atomic : forall size_oracle attempts tabs scripts sched,
+  init_ok tabs -> Forall (fun s => forallb modelled s = true) scripts ->
+  c06_ok (trace_of size_oracle attempts tabs scripts sched) = true.
+Proof. exact c06_all_traces. Qed.
+Print Assumptions C06_crash_atomic.
+
+(* non-vacuity: a compaction killed right after its commit, a second handle carrying on *)
+Local Open Scope N_scope.
+Definition c06_tabs : list (nat * tfile) :=
+  [(0%nat, {| tf_min := 1; tf_max := 1; tf_txs := [100%nat]; tf_size := 100 |});
+   (1%nat, {| tf_min := 2; tf_max := 2; tf_txs := [101%nat]; tf_size := 100 |})].
+Example C06_ex :
+  let sched := map (fun _ => Step 0 None) (seq 0 15) ++ [Crash 0] ++ map (fun _ => Step 1 None) (seq 0 30) in
+  let tr := trace_of (fun _ => 100) 50 c06_tabs [[AOpen; ACompactAll]; [AOpen; AAdd 7 false; ARead]] sched in
+  c06_ok tr = true /\ existsb (fun e => match e with ECrash 0 => true | _ => false end) tr = true /\
+  existsb (fun e => match e with ERet 1 ARead (RView _ (Some 7%nat)) => true | _ => false end) tr = true.
+Proof. vm_compute. auto. Qed.
